@@ -69,7 +69,12 @@ pub fn run<J: Sync>(jobs: &[J], deadline: Duration, work: impl Fn(&mut Stats, &J
                         if timed_out.load(Ordering::Relaxed) {
                             break;
                         }
-                        work(&mut st, &jobs[i], i);
+                        // a panic inside a MONITOR (my oracle or glue code met a state it did not expect) must not
+                        // end the process silently: it is recorded as inconclusive with its message and location
+                        // (panics of the crate under test are caught closer to the call and judged by the monitor)
+                        if let Err(msg) = crate::adapter::guarded(|| work(&mut st, &jobs[i], i)) {
+                            st.inconclusive(format!("harness error: the monitor itself panicked on job {i}: {msg}"));
+                        }
                     }
                     st
                 })
